@@ -94,6 +94,7 @@ fn expect_stdout(l: &mut Local, what: &str, args: &[&str], want: &str, timeout: 
         let mut d = Dig::new();
         d.s(&format!("{:?}", args));
         l.nt(d.get());
+        l.sample(|| J::obj().set("invocation", format!("{:?}", args)).set("exit", code).set("stdout_bytes", out.len()).set("stdout_equals_library_result", true).set("stdout_head", out.chars().take(60).collect::<String>()));
         return true;
     }
     false
@@ -424,6 +425,7 @@ fn encode_cmd(l: &mut Local, rng: &mut Rng, dir: &str, idx: u64) {
                 d.u(b as u64);
             }
             l.nt(d.get());
+            l.sample(|| det().set("invocation", format!("{:?}", args)).set("output_equals_punctured_codewords", true));
         }
     }
     // invalid patterns
@@ -565,14 +567,14 @@ pub fn run(run: &mut Run) {
     let tier = run.tier;
     let dir = tmpdir();
     run.sub_seq("code-generation-exhaustive", 1, move |l, _i, _rng| codegen(l, tier));
-    let n = run.tier.n(60, 1500);
+    let n = run.tier.n(400, 8000);
     run.sub("constructions", n, |l, _i, rng| constructions(l, rng));
     let d1 = dir.clone();
-    run.sub("systematic", run.tier.n(80, 2000), move |l, i, rng| systematic_cmd(l, rng, &d1, i));
+    run.sub("systematic", run.tier.n(500, 10_000), move |l, i, rng| systematic_cmd(l, rng, &d1, i));
     let d2 = dir.clone();
-    run.sub("encode", run.tier.n(120, 3000), move |l, i, rng| encode_cmd(l, rng, &d2, i));
+    run.sub("encode", run.tier.n(700, 15_000), move |l, i, rng| encode_cmd(l, rng, &d2, i));
     let d3 = dir.clone();
-    run.sub_threads("ber", run.tier.n(12, 150), 2, move |l, i, rng| ber_cmd(l, rng, &d3, i));
+    run.sub_threads("ber", run.tier.n(24, 300), 2, move |l, i, rng| ber_cmd(l, rng, &d3, i));
     let _ = std::fs::remove_dir_all(&dir);
     let _ = from_sparse(&SparseMatrix::new(1, 1));
 }
